@@ -18,6 +18,5 @@ CONSTANTS
   MaxOps = 6
   MaxEvents = 2
 VIEW View
-INVARIANTS ExactlyOnce AllFlushed NotEarly RingOK Rounded Placement DropsJustified OutIncreasing SendBound ChanCap
 ACTION_CONSTRAINT ExportBeh
 CHECK_DEADLOCK FALSE
